@@ -244,13 +244,20 @@ pub fn check(case: &Case, p: &mut Probe) -> Check {
     Ok(())
 }
 
+/// fuzz-target body: byte tape -> operation history -> model comparison
+pub fn fuzz_bytes(data: &[u8]) -> Check {
+    let case = case_from_bytes(data);
+    let mut p = Probe::default();
+    guarded_check(|| check(&case, &mut p))
+}
+
 pub fn property() -> Property {
     Property {
         id: "C17",
         subs: vec![Box::new(Sub {
             name: "model",
             rule: "histories of 0..=60 (thorough 120) operations {insert, remove, toggle, clear_row/col, set_row/col, insert_row/col} on shapes 1..=8 (16) squared, half of the cell operations aimed at entries currently present; after every step every query of the real matrix is compared with a BTreeSet model; non-trivial = a deletion that removed something followed by an insertion into the same row or column; distinct by digest of the whole history",
-            cases: |t| t.pick(30_000, 3_000_000),
+            cases: |t| t.pick(300_000, 10_000_000),
             strategy,
             check,
             health: &[("delete-then-insert-same-line", 0.40)],
